@@ -17,6 +17,7 @@
 #pragma once
 #include <sys/mman.h>
 #include <cstdint>
+#include <cstdio>
 #include <cstdlib>
 #include <cstring>
 #include <map>
@@ -128,6 +129,9 @@ public:
   void* callback_unique_keys[MAX_CALLBACKS]{ nullptr };
   void* callbacks[MAX_CALLBACKS]{ nullptr };
   int lookups = 0;                    // number of impl_lookup_symbol calls
+  // drivers set this before create_sandbox so that the region base is a known
+  // constant (the Coq model computes with absolute addresses, mod 2^64)
+  static inline uintptr_t fixed_base_hint = 0;
 
   uintptr_t region_base() const { return base; }
 
@@ -139,9 +143,17 @@ protected:
     }
     lib = a_lib;
     map_len = Cfg::region_size + 2 * PAGE;
-    void* m = mmap(nullptr, map_len, PROT_NONE,
-                   MAP_PRIVATE | MAP_ANONYMOUS | MAP_NORESERVE, -1, 0);
+    void* m;
+    if (fixed_base_hint != 0) {
+      m = mmap(reinterpret_cast<void*>(fixed_base_hint - PAGE), map_len, PROT_NONE,
+               MAP_PRIVATE | MAP_ANONYMOUS | MAP_NORESERVE | MAP_FIXED_NOREPLACE, -1, 0);
+      fixed_base_hint = 0;
+    } else {
+      m = mmap(nullptr, map_len, PROT_NONE,
+               MAP_PRIVATE | MAP_ANONYMOUS | MAP_NORESERVE, -1, 0);
+    }
     if (m == MAP_FAILED) {
+      std::fprintf(stderr, "verif: mmap failed\n");
       std::abort();
     }
     map_start = reinterpret_cast<uintptr_t>(m);
